@@ -42,6 +42,11 @@ QUERIES = [
     "{ me { nnFriend { req ... @defer { name nnFriend { req } } } } }",
     "{ me { id ...G } } fragment G on Obj { ... @defer(label: \"g1\") { name ...H @defer(label: \"g2\") } } fragment H on Obj { req friends { id } }",
     "{ ... @defer { a { id } } ... @defer { a { name } b { id } } c { ... @defer(if: false) { name } } }",
+    "{ a: me { ...F } b: me { ...F friends @stream(initialCount: 1) { id } } } fragment F on Obj { friends @stream(initialCount: 1) { name } }",
+    "{ a: me { ...F } b: me { friends @stream(initialCount: 0) { id bestFriend { name } } ...F } c: me { ...F @defer } } fragment F on Obj { friends @stream(initialCount: 0) { name bestFriend { id } } }",
+    "{ list @stream(initialCount: 1) { ...F } b: list @stream(initialCount: 1) { ...F req } } fragment F on Obj { id nnFriends @stream(initialCount: 1) { name } }",
+    "{ me { friends { ... @defer(label: \"D\") { bestFriend { name req } } ... @defer(label: \"X\") { bestFriend { name } } } } ... @defer(label: \"R\") { a { id } } }",
+    "{ ... @defer(label: \"o\") { me { name } } ... @defer(label: \"g\") { slow { id } me { ... @defer(label: \"i\") { name } } } }",
 ]
 
 
@@ -131,7 +136,7 @@ class Cover:
         for f in self.r.sample(self.SCALARS, self.r.randint(1, 3)):
             node[f] = ("scalar", None)
         if depth > 0:
-            for f in self.r.sample(["bestFriend", "nnFriend", "friends", "nnFriends"], self.r.randint(0, 2)):
+            for f in self.r.sample(["bestFriend", "friends", "friends", "nnFriends", "nnFriend"][:4] if self.r.random() < 0.5 else ["bestFriend", "nnFriend", "friends", "nnFriends"], self.r.randint(0, 2)):
                 node[f] = ("list" if "riends" in f else "obj", self.mk_obj(depth - 1))
         return node
 
@@ -164,6 +169,12 @@ class Cover:
                 self.stream_args[key] = (f" @stream(initialCount: {self.r.choice([0, 1, 1, 2])})"
                                          if self.r.random() < 0.45 else "")
             st = self.stream_args[key]
+        if self.r.random() < 0.3:
+            # the same field twice under different aliases: fragments of the base node are shared between both
+            self.nalias = getattr(self, "nalias", 0) + 1
+            a = f"al{self.nalias}"
+            return (f"{a}a: " + f + st + " { " + self.render(child, path + (f,)) + " } "
+                    + f"{a}b: " + f + st + " { " + self.render(child, path + (f,)) + " }")
         return f + st + " { " + self.render(child, path + (f,)) + " }"
 
     def render(self, node, path):
@@ -176,10 +187,12 @@ class Cover:
         for _ in range(self.r.randint(0, 3)):
             sub = [f for f in fields if self.r.random() < 0.6] or [self.r.choice(fields)]
             used.update(sub)
-            if self.r.random() < 0.25 and path:
+            if self.r.random() < 0.4 and path:
                 # named fragment on Obj, reusable at every rendering of this base node
-                key = (path, tuple(sub))
+                same_path = [k for k in self.frags if k[0] == path]
+                key = self.r.choice(same_path) if same_path and self.r.random() < 0.6 else (path, tuple(sub))
                 if key not in self.frags:
+                    sub = list(key[1])
                     self.nfrag += 1
                     self.frags[key] = (f"F{self.nfrag}", " ".join(self.field(node, f, path) for f in sub))
                 parts.append("..." + self.frags[key][0] + self.defer(0.4))
